@@ -290,11 +290,11 @@ namespace ExpectCalc
 open GoblVerif.Generated.Calc
 
 theorem calls_calculate_as_modelled : calls_calculate =
-    ["RegimeDef", "IsZero", "getIssueDate", "setIssueDate", "TodayIn", "TimeLocation", "getValueDate", "getIssueDate", "getCurrency", "Def", "getCurrency", "New", "setCurrency", "getCurrency", "getTotals", "new", "Zero", "Def", "reset", "getTax", "GetRoundingRule", "HasTags", "applyCustomerRates", "calculateComplements", "getComplements", "calculateOrgDocumentRefs", "getPreceding", "calculateLines", "getLines", "getExchangeRates", "calculateLineSum", "getLines", "calculateDiscounts", "getDiscounts", "calculateDiscountSum", "getDiscounts", "Subtract", "calculateCharges", "getCharges", "calculateChargeSum", "getCharges", "Add", "make", "getLines", "append", "getDiscounts", "append", "getCharges", "append", "len", "setTotals", "new", "getCurrency", "GetCountry", "GetTags", "Calculate", "Category", "PreciseAmount", "Subtract", "PreciseSum", "Add", "Add", "len", "getPaymentDetails", "calculateAdvances", "totalAdvance", "Subtract", "CalculateDues", "roundLines", "getLines", "roundDiscounts", "getDiscounts", "roundCharges", "getCharges", "round", "setTotals"] := rfl
+    ["RegimeDef", "IsZero", "getIssueDate", "setIssueDate", "TodayIn", "TimeLocation", "getValueDate", "getIssueDate", "getCurrency", "Def", "getCurrency", "New", "setCurrency", "getCurrency", "getTotals", "new", "Zero", "Def", "reset", "getTax", "GetRoundingRule", "HasTags", "applyCustomerRates", "calculateComplements", "getComplements", "calculateOrgDocumentRefs", "getPreceding", "calculateLines", "getLines", "getExchangeRates", "calculateLineSum", "getLines", "calculateDiscounts", "getDiscounts", "calculateDiscountSum", "getDiscounts", "Subtract", "calculateCharges", "getCharges", "calculateChargeSum", "getCharges", "Add", "make", "getLines", "append", "getDiscounts", "append", "getCharges", "append", "getLines", "Prepare", "GetCountry", "GetTags", "len", "setTotals", "new", "getCurrency", "GetCountry", "GetTags", "Calculate", "Category", "PreciseAmount", "Subtract", "PreciseSum", "Add", "Add", "len", "getPaymentDetails", "calculateAdvances", "totalAdvance", "Subtract", "CalculateDues", "roundLines", "getLines", "roundDiscounts", "getDiscounts", "roundCharges", "getCharges", "round", "setTotals"] := rfl
 theorem conds_calculate_as_modelled : conds_calculate =
-    ["doc.getIssueDate().IsZero()", "date == nil", "doc.getCurrency() == currency.CodeEmpty || doc.getCurrency().Def() == nil", "r == nil", "t == nil", "tx := doc.getTax(); tx != nil", "tx.PricesInclude != \"\"", "tx.Rounding != \"\"", "rr == \"\"", "doc.HasTags(tax.TagCustomerRates)", "err := calculateComplements(doc.getComplements()); err != nil", "err := calculateOrgDocumentRefs(doc.getPreceding(), cur, rr); err != nil", "err := calculateLines(doc.getLines(), cur, doc.getExchangeRates(), rr); err != nil", "discounts := calculateDiscountSum(doc.getDiscounts(), cur); discounts != nil", "charges := calculateChargeSum(doc.getCharges(), cur); charges != nil", "l.Total != nil", "len(tls) == 0", "err := tc.Calculate(t.Taxes); err != nil", "ct != nil", "t.Rounding != nil", "len(t.Taxes.Categories) == 0", "pd := doc.getPaymentDetails(); pd != nil", "t.Advances = pd.totalAdvance(zero); t.Advances != nil"] := rfl
+    ["doc.getIssueDate().IsZero()", "date == nil", "doc.getCurrency() == currency.CodeEmpty || doc.getCurrency().Def() == nil", "r == nil", "t == nil", "tx := doc.getTax(); tx != nil", "tx.PricesInclude != \"\"", "tx.Rounding != \"\"", "rr == \"\"", "doc.HasTags(tax.TagCustomerRates)", "err := calculateComplements(doc.getComplements()); err != nil", "err := calculateOrgDocumentRefs(doc.getPreceding(), cur, rr); err != nil", "err := calculateLines(doc.getLines(), cur, doc.getExchangeRates(), rr); err != nil", "discounts := calculateDiscountSum(doc.getDiscounts(), cur); discounts != nil", "charges := calculateChargeSum(doc.getCharges(), cur); charges != nil", "l.Total != nil", "l.Total == nil", "err := l.Taxes.Prepare(r.GetCountry(), doc.GetTags(), *date); err != nil", "len(tls) == 0", "err := tc.Calculate(t.Taxes); err != nil", "ct != nil", "t.Rounding != nil", "len(t.Taxes.Categories) == 0", "pd := doc.getPaymentDetails(); pd != nil", "t.Advances = pd.totalAdvance(zero); t.Advances != nil"] := rfl
 theorem stmts_calculate_as_modelled : stmts_calculate =
-    ["r := doc.RegimeDef()", "date := doc.getValueDate()", "id := doc.getIssueDate()", "date = &id", "return validation.Errors{\"currency\": errors.New(\"missing\")}", "cur := doc.getCurrency()", "t := doc.getTotals()", "t = new(Totals)", "zero := cur.Def().Zero()", "tx := doc.getTax()", "pit = tx.PricesInclude", "rr = tx.Rounding", "rr = r.GetRoundingRule()", "err := calculateComplements(doc.getComplements())", "return validation.Errors{\"complements\": err}", "err := calculateOrgDocumentRefs(doc.getPreceding(), cur, rr)", "return err", "err := calculateLines(doc.getLines(), cur, doc.getExchangeRates(), rr)", "return validation.Errors{\"lines\": err}", "t.Sum = calculateLineSum(doc.getLines(), cur)", "t.Total = t.Sum", "discounts := calculateDiscountSum(doc.getDiscounts(), cur)", "t.Discount = discounts", "t.Total = t.Total.Subtract(*discounts)", "charges := calculateChargeSum(doc.getCharges(), cur)", "t.Charge = charges", "t.Total = t.Total.Add(*charges)", "tls := make([]tax.TaxableLine, 0)", "tls = append(tls, l)", "tls = append(tls, l)", "tls = append(tls, l)", "return nil", "t.Taxes = new(tax.Total)", "tc := &tax.TotalCalculator{ Currency: doc.getCurrency(), Rounding: rr, Country: r.GetCountry(), Tags: doc.GetTags(), Date: *date, Lines: tls, Includes: pit, }", "err := tc.Calculate(t.Taxes)", "return err", "ct := t.Taxes.Category(pit)", "ti := ct.PreciseAmount()", "t.TaxIncluded = &ti", "t.Total = t.Total.Subtract(ti)", "t.Tax = t.Taxes.PreciseSum()", "t.TotalWithTax = t.Total.Add(t.Tax)", "t.Payable = t.TotalWithTax", "t.Payable = t.Payable.Add(*t.Rounding)", "t.Taxes = nil", "pd := doc.getPaymentDetails()", "t.Advances = pd.totalAdvance(zero)", "v := t.Payable.Subtract(*t.Advances)", "t.Due = &v", "return nil"] := rfl
+    ["r := doc.RegimeDef()", "date := doc.getValueDate()", "id := doc.getIssueDate()", "date = &id", "return validation.Errors{\"currency\": errors.New(\"missing\")}", "cur := doc.getCurrency()", "t := doc.getTotals()", "t = new(Totals)", "zero := cur.Def().Zero()", "tx := doc.getTax()", "pit = tx.PricesInclude", "rr = tx.Rounding", "rr = r.GetRoundingRule()", "err := calculateComplements(doc.getComplements())", "return validation.Errors{\"complements\": err}", "err := calculateOrgDocumentRefs(doc.getPreceding(), cur, rr)", "return err", "err := calculateLines(doc.getLines(), cur, doc.getExchangeRates(), rr)", "return validation.Errors{\"lines\": err}", "t.Sum = calculateLineSum(doc.getLines(), cur)", "t.Total = t.Sum", "discounts := calculateDiscountSum(doc.getDiscounts(), cur)", "t.Discount = discounts", "t.Total = t.Total.Subtract(*discounts)", "charges := calculateChargeSum(doc.getCharges(), cur)", "t.Charge = charges", "t.Total = t.Total.Add(*charges)", "tls := make([]tax.TaxableLine, 0)", "tls = append(tls, l)", "tls = append(tls, l)", "tls = append(tls, l)", "err := l.Taxes.Prepare(r.GetCountry(), doc.GetTags(), *date)", "return err", "return nil", "t.Taxes = new(tax.Total)", "tc := &tax.TotalCalculator{ Currency: doc.getCurrency(), Rounding: rr, Country: r.GetCountry(), Tags: doc.GetTags(), Date: *date, Lines: tls, Includes: pit, }", "err := tc.Calculate(t.Taxes)", "return err", "ct := t.Taxes.Category(pit)", "ti := ct.PreciseAmount()", "t.TaxIncluded = &ti", "t.Total = t.Total.Subtract(ti)", "t.Tax = t.Taxes.PreciseSum()", "t.TotalWithTax = t.Total.Add(t.Tax)", "t.Payable = t.TotalWithTax", "t.Payable = t.Payable.Add(*t.Rounding)", "t.Taxes = nil", "pd := doc.getPaymentDetails()", "t.Advances = pd.totalAdvance(zero)", "v := t.Payable.Subtract(*t.Advances)", "t.Due = &v", "return nil"] := rfl
 theorem calls_calculateDiscounts_as_modelled : calls_calculateDiscounts =
     ["Zero", "Def", "len", "IsZero", "RescaleUp", "Exp", "ApplyRoundingRule", "Of", "ApplyRoundingRule"] := rfl
 theorem conds_calculateDiscounts_as_modelled : conds_calculateDiscounts =
